@@ -19,6 +19,10 @@ CHECKS = {
    text='Generated well-nested write histories (every trailer independently supplied right / supplied wrong / omitted where an enclosing trailer or Close() follows; Close() after a drawn prefix; drawn writer and source delimiters, eol, version, LX renumbering) are written with X12Writer; the text must equal, character for character, the model output (non-trailer segments unchanged, trailers regenerated from header ids and true counts), pass an independent envelope audit and be read by X12Reader without envelope errors; ISA offsets must carry the writer delimiters. Quick 4000 histories, thorough 32000.',
    design_ref='3/C11', technique='Hypothesis-generated call histories checked against a reference model of the writer; round-trip through independent tokeniser and envelope audit',
    note='Trusted: model() in vpx/props/c11.py, vpx/x12ref.py, vpx/envmodel.py. Histories are well nested by construction (property precondition); values never contain writer delimiters.'),
+ 'C17': dict(
+   text='Paths are constructed from their parts (exhaustive product over representative ids at depth 0..2 (3 in thorough), Hypothesis over all real loop ids to depth 6, near-miss pairs for equality) and parsed: fields must equal the parts, format() the text, re-parse equal and hash-equal, ill-formed combinations must raise X12PathError; the printed path of every loop/segment/element node of every shipped map must be a fixed point. Segment.set/get_value is driven by generated operation histories against a list-of-lists model with a full snapshot comparison after every step.',
+   design_ref='3/C17', technique='grammar-directed enumeration + Hypothesis; model-based operation histories on Segment',
+   note='Trusted: the path grammar as worded in the property; build()/expect_error() in vpx/props/c17.py. Composite map nodes (path = segment path + "/") and loop ids that look like segment ids are outside the grammar and skipped (counted).'),
 }
 for pid in CHECKS:
     ENGINES[0]['serves_properties'].append(pid)
